@@ -118,6 +118,31 @@ Theorem C16_no_detach_refuted :
   exists ops, existsb (fun p => negb (snd p)) (replay ex_pagefun (oinit 1 false) 0 ops) = true.
 Proof. exists [OReadRows 0 1]. vm_compute. reflexivity. Qed.
 
+(** The value-level reader of a column chunk (column_chunk.go
+    columnChunkValueReader made by NewColumnChunkValueReader: rdetach = false,
+    [readers_ok] does not hold for it) is safe only because ReadValues returns at
+    the end of a page: a call ends the window of the previous batch (PEnd),
+    releases the page to the pool (PRelease) and loads the next one (here into
+    the very cell just released); one batch never spans two pages.  Replayed
+    with churn after each call: the batch of the last call is intact. *)
+Example C16_ex_value_reader :
+  let st1 := run_prims ex_pagefun (oinit 1 false) [PEnd 0; PLoad 0 0; PCollect 0 0] in
+  let st2 := churn_all ex_pagefun st1 7 (length (heap st1)) in
+  let st3 := run_prims ex_pagefun st2 [PEnd 0; PRelease 0; PLoad 0 0; PCollect 0 1] in
+  let st4 := churn_all ex_pagefun st3 9 (length (heap st3)) in
+  (map bid (held st2), state_ok st2) = ([0], true) /\
+  (map bid (held st4), state_ok st4) = ([1], true).
+Proof. vm_compute. split; reflexivity. Qed.
+
+(** The seeded defect "the value reader tops up a batch from the following
+    pages": the released page is recycled for the next page of the same call
+    while the batch still references it. *)
+Theorem C16_value_reader_top_up_refuted :
+  let st := run_prims ex_pagefun (oinit 1 false)
+              [PEnd 0; PLoad 0 0; PCollect 0 0; PRelease 0; PLoad 0 0; PCollect 0 0] in
+  map bid (held st) = [0] /\ state_ok st = false.
+Proof. vm_compute. split; reflexivity. Qed.
+
 (* a write reads a caller cell and leaves it as it was *)
 Example C16_ex_write :
   let st := run_prims ex_pagefun (oinit 1 true) [PLoad 0 0; PCollect 0 0; PCopy 0 1] in
